@@ -104,8 +104,12 @@ def find_lexicons(
     cur = connect().cursor()
     found = False
     for specifier in lexicon.split():
-        limit = '-1' if '*' in lexicon else '1'
+        limit, order = '-1', 'ASC'
         if ':' not in specifier:
+            if not any(c in specifier for c in '*?['):
+                # a bare id selects only the most recently added
+                # lexicon with that id
+                limit, order = '1', 'DESC'
             specifier += ':*'
         query = f'''
             SELECT DISTINCT rowid, id, label, language, email, license,
@@ -113,6 +117,7 @@ def find_lexicons(
               FROM lexicons
              WHERE id || ":" || version GLOB :specifier
                AND (:language ISNULL OR language = :language)
+             ORDER BY rowid {order}
              LIMIT {limit}
         '''
         params = {'specifier': specifier, 'language': lang}
